@@ -1,7 +1,21 @@
 # Per-property check configuration: which harnesses gosym runs, with which bounds.
 # Only bounds that ran clean on the unchanged tree are registered here.
 
+C11_HARN = ["VerifC11Arith", "VerifC11Mod", "VerifC11Rel", "VerifC11Logic", "VerifC11Shift", "VerifC11Unary", "VerifC11Eq", "VerifC11IntFloatEq", "VerifC11Index"]
+
 CHECKS = {
+    "C11": {
+        "runs": [
+            {"harness": ["types/value." + h for h in C11_HARN], "pkgs": ["./types/value"], "cross": 7, "params_quick": {"maxlen": 1}, "params_thorough": {"maxlen": 2},
+             "covers": {"VerifC11Arith": ["int-int", "float-promotion", "string-concat", "array-concat", "error"],
+                        "VerifC11Mod": ["mod-zero", "mod", "error"], "VerifC11Rel": ["numeric", "error"],
+                        "VerifC11Logic": ["int", "bool", "error"], "VerifC11Shift": ["int", "error"], "VerifC11Unary": ["done"],
+                        "VerifC11Eq": ["nil", "compared", "functions"], "VerifC11IntFloatEq": ["done"],
+                        "VerifC11Index": ["ix1-in", "ix1-out", "ix2-in", "ix2-out"]}},
+        ],
+        "bound_text": "all 7x7 kind pairings, full 64-bit ints/float bit patterns (NaN, inf, -0 included); strings/arrays of length <= 2 (index laws: <= 3), array nesting 1",
+        "assumptions": ["operands are well-formed values as built by the package's constructors", "shift semantics only pinned down for counts 0..63 (and non-negative left operand for >>); other counts: must yield an int without fault"],
+    },
     "C15": {
         "runs": [
             {"harness": ["types/bytecode.VerifC15Enc", "types/bytecode.VerifC15Patch"], "pkgs": ["./types/bytecode"],
